@@ -476,7 +476,7 @@ pub fn run(tier: Tier) -> i32 {
     let mut rep = Report::new("C11", tier);
     rep.rule("M1: every sequence up to depth D of {connect i, server.disconnect i, remove i, send(i,ch), broadcast(ch), broadcast_except(i,ch), client i sends, tick, tick with client i's link down, hostile packet on link i} for N clients, each over its own link; labels are unique so every obtained message is attributed; in every state three kinds of probes run on clones: (P1) fault-free ticks with fresh traffic to every healthy client on every channel: every reliable message reaches exactly its still-healthy recipients exactly once, nobody else; (P2, per client) the same ticks with that client's link down: what every other observer obtains, tick for tick, is identical to P1 (differential isolation); (P3, per client) its ordered server->client stream stalled: everything else identical to P1");
     rep.assume("ticks deliver without delay inside the M1 alphabet (per-packet fault schedules on a single link are C01-C03's job); recipients of a broadcast = clients for which RenetServer::is_connected holds at the call");
-    for (k, (n, d)) in [(2usize, std::env::var("C11D").ok().and_then(|s| s.parse().ok()).unwrap_or(tier.pick(6u32, 8u32))), (3usize, tier.pick(5u32, 6u32))].into_iter().enumerate() {
+    for (k, (n, d)) in [(2usize, std::env::var("C11D").ok().and_then(|s| s.parse().ok()).unwrap_or(tier.pick(6u32, 7u32))), (3usize, tier.pick(5u32, 6u32))].into_iter().enumerate() {
         let cfg = DfsCfg { depth: d, threads: explore::threads(), wall_cap_s: tier.pick(100.0, 1500.0), max_signatures: 8 };
         let w = NWorld::new(n);
         let r = explore::dfs(&w, &cfg);
